@@ -1,1 +1,142 @@
-//! Read-set generators
+//! Read-set generators (construction, never rejection).  A read set is a small "genome" over a reduced
+//! alphabet plus a list of read recipes; `materialise(k)` is a pure function, so whole cases shrink and
+//! replay as one value.
+
+use proptest::collection::vec;
+use proptest::prelude::*;
+use serde::{Deserialize, Serialize};
+
+use crate::model::Read;
+use crate::util::{idx, rc, to_ascii, Seq};
+
+#[derive(Debug, Clone, Serialize, Deserialize)]
+pub enum Recipe {
+    /// literal bases (any length, including < K and empty)
+    Raw(Seq),
+    /// substring of the genome (start/len as fractions), optionally reverse-complemented and with one substitution
+    Sub {
+        start: u16,
+        len: u16,
+        rc: bool,
+        snp: Option<(u16, u8)>,
+    },
+    /// tandem repeat of a short unit: cycles of |unit| k-mers (|unit| = 1 is a homopolymer self-loop)
+    Tandem { unit: Seq, extra: u16 },
+    /// pre + stem + loop + rc(stem) + post : palindromic k-mers (even K) / palindromic (K+1)-mers = hairpins (odd K)
+    Hairpin { pre: Seq, stem: Seq, lp: Seq, post: Seq },
+    /// duplicate of an earlier read (so that thresholds >= 2 retain something)
+    Dup(u16),
+    /// the reverse complement of an earlier read
+    DupRc(u16),
+}
+
+#[derive(Debug, Clone, Serialize, Deserialize)]
+pub struct ReadSet {
+    pub genome: Seq,
+    pub recipes: Vec<(Recipe, u8)>,
+}
+
+impl ReadSet {
+    pub fn materialise(&self, k: usize) -> Vec<Read> {
+        let mut out: Vec<Read> = Vec::new();
+        for (r, label) in &self.recipes {
+            let seq: Seq = match r {
+                Recipe::Raw(s) => s.clone(),
+                Recipe::Sub { start, len, rc: flip, snp } => {
+                    let g = &self.genome;
+                    if g.is_empty() {
+                        Vec::new()
+                    } else {
+                        let st = idx(*start, g.len());
+                        let maxlen = g.len() - st;
+                        // lengths concentrate around k-1 .. 4k
+                        let want = (k.saturating_sub(1)) + idx(*len, 3 * k + 12);
+                        let l = want.min(maxlen);
+                        let mut s = g[st..st + l].to_vec();
+                        if let Some((p, b)) = snp {
+                            if !s.is_empty() {
+                                let i = idx(*p, s.len());
+                                s[i] = *b & 3;
+                            }
+                        }
+                        if *flip {
+                            s = rc(&s);
+                        }
+                        s
+                    }
+                }
+                Recipe::Tandem { unit, extra } => {
+                    if unit.is_empty() {
+                        Vec::new()
+                    } else {
+                        let l = k + idx(*extra, 2 * unit.len() + k + 2);
+                        (0..l).map(|i| unit[i % unit.len()]).collect()
+                    }
+                }
+                Recipe::Hairpin { pre, stem, lp, post } => {
+                    let mut s = pre.clone();
+                    s.extend_from_slice(stem);
+                    s.extend_from_slice(lp);
+                    s.extend(rc(stem));
+                    s.extend_from_slice(post);
+                    s
+                }
+                Recipe::Dup(i) => {
+                    if out.is_empty() {
+                        Vec::new()
+                    } else {
+                        out[idx(*i, out.len())].seq.clone()
+                    }
+                }
+                Recipe::DupRc(i) => {
+                    if out.is_empty() {
+                        Vec::new()
+                    } else {
+                        rc(&out[idx(*i, out.len())].seq)
+                    }
+                }
+            };
+            out.push(Read {
+                seq,
+                exts: 0,
+                label: *label,
+            });
+        }
+        out
+    }
+
+    pub fn render(&self, k: usize) -> serde_json::Value {
+        let reads: Vec<String> = self.materialise(k).iter().map(|r| format!("{}:{}", r.label, to_ascii(&r.seq))).collect();
+        serde_json::json!({"k": k, "genome": to_ascii(&self.genome), "reads": reads})
+    }
+}
+
+fn recipe(k: usize, a: u8, perm: [u8; 4]) -> BoxedStrategy<Recipe> {
+    let b = move |len: std::ops::RangeInclusive<usize>| super::bases(len, a, perm);
+    prop_oneof![
+        3 => b(0..=2 * k + 20).prop_map(Recipe::Raw),
+        1 => b(k + 1..=k + 1).prop_map(Recipe::Raw),
+        8 => (any::<u16>(), any::<u16>(), any::<bool>(), proptest::option::weighted(0.3, (any::<u16>(), 0u8..4)))
+            .prop_map(|(start, len, rc, snp)| Recipe::Sub { start, len, rc, snp }),
+        3 => (b(1..=k + 2), any::<u16>()).prop_map(|(unit, extra)| Recipe::Tandem { unit, extra }),
+        1 => (b(1..=3), any::<u16>()).prop_map(|(unit, extra)| Recipe::Tandem { unit, extra }),
+        3 => (b(0..=k), b(1..=k + 2), b(0..=2), b(0..=k))
+            .prop_map(|(pre, stem, lp, post)| Recipe::Hairpin { pre, stem, lp, post }),
+        3 => any::<u16>().prop_map(Recipe::Dup),
+        2 => any::<u16>().prop_map(Recipe::DupRc),
+    ]
+    .boxed()
+}
+
+/// Read sets for K = `k`: 0..=max_reads reads with labels in 0..ncolours.
+pub fn read_set(k: usize, max_reads: usize, ncolours: u8) -> BoxedStrategy<ReadSet> {
+    super::alphabet()
+        .prop_flat_map(move |(a, perm)| {
+            (
+                super::bases(0..=6 * k + 40, a, perm),
+                vec((recipe(k, a, perm), 0u8..ncolours.max(1)), 0..=max_reads),
+            )
+        })
+        .prop_map(|(genome, recipes)| ReadSet { genome, recipes })
+        .boxed()
+}
